@@ -94,7 +94,8 @@ fn main() {
         "generated programs of 1-3 functions with 1-8 blocks (register/temporary arithmetic with the rule patterns of \
          trivial_operation_substitution, loads, stores, conditional chains with shared conditions, def-free forwarding \
          blocks, loops incl. back to the entry block, stack-pointer arithmetic and masking, direct/indirect/extern calls, \
-         indirect jumps, returns) -> real normalize_basic -> every optimizing pass (chained as in normalize_optimize, \
+         indirect jumps, returns; assignment cycles `Y = f(X); X = g(Y)` through 2-3 registers followed by a jump / diamond / loop \
+         back-edge and observable reads of X) -> real normalize_basic -> every optimizing pass (chained as in normalize_optimize, \
          or alone) -> programs before/after; each function is run from several initial states by the Lean reference \
          interpreter; non-trivial = at least one pass changed the program; distinct by program text",
     );
@@ -140,6 +141,21 @@ fn main() {
             out.case(&l, None);
         }
         out.count("crafted");
+    }
+    // directed programs that are always run: assignment cycles across a block boundary (the whole chain and
+    // expression propagation alone)
+    if !args.extra.contains_key("crafted") {
+        for (name, program) in cycle_directed_programs() {
+            let mut project = project_x64(program);
+            let _ = project.normalize_basic();
+            let seeds: Vec<u64> = (0..nstates).map(|k| 2000 + k).collect();
+            let all: Vec<String> = PASSES.iter().map(|s| s.to_string()).collect();
+            let (l, _) = case_line(&project, &all, true, &seeds, fuel, &mut out);
+            out.case(&l, Some(name));
+            let (l, _) = case_line(&project, &["prop".to_string()], false, &seeds, fuel, &mut out);
+            out.case(&l, None);
+            out.count("directed:cycle");
+        }
     }
     for _ in 0..n {
         let program = gen_program(&mut rng, Flavor::Behaviour, &mut counts);
